@@ -56,7 +56,29 @@ func c09Atom(p *prng.R, b tspace.Base) ref.Atom {
 		// separator and a character outside the basic plane
 		return ref.Str([]string{"", "a", "é\"\\", "set", "map", "uuid", "x y", " ", "\x01", "tab\tnl\n", "\v\x7f", "\u2028", "\U0001F600", "a\x00b"}[p.Intn(14)])
 	}
+	if p.Chance(1, 6) {
+		// a uuid-typed field may hold the name of a row inserted in the same transaction
+		// (encoded as ["named-uuid", name]); names are identifiers, case matters
+		return ref.UUID([]string{"rowA", "Port_B2", "lsp_x", "N", "myRow_01"}[p.Intn(5)])
+	}
 	return ref.UUID(p.UUID())
+}
+
+func c09IsUUID(s string) bool {
+	if len(s) != 36 {
+		return false
+	}
+	for i, ch := range s {
+		switch {
+		case i == 8 || i == 13 || i == 18 || i == 23:
+			if ch != '-' {
+				return false
+			}
+		case !((ch >= '0' && ch <= '9') || (ch >= 'a' && ch <= 'f') || (ch >= 'A' && ch <= 'F')):
+			return false
+		}
+	}
+	return true
 }
 
 func c09Value(p *prng.R, c *tspace.Col) ref.Datum {
@@ -90,6 +112,9 @@ func rfcJSON(c *tspace.Col, d ref.Datum) interface{} {
 			return a.B
 		case 's':
 			return a.S
+		}
+		if !c09IsUUID(a.S) {
+			return []interface{}{"named-uuid", a.S}
 		}
 		return []interface{}{"uuid", a.S}
 	}
